@@ -40,6 +40,16 @@ fn garbage(rng: &mut Rng, kind: ItemKind) -> Vec<String> {
     }
     let n = rng.range(1, 8);
     let mut out: Vec<String> = Vec::new();
+    if rng.chance(1, 12) {
+        // a long string literal with multi-byte characters at every offset
+        let len = rng.range(20, 120);
+        let mut lit = String::from("\"");
+        for _ in 0..len {
+            lit.push_str(rng.pick_str(&["a", "b", " ", "é", "ü", "漢", "😀", "x", "-"]));
+        }
+        lit.push('"');
+        out.push(lit);
+    }
     while out.len() < n {
         let w = rng.pick_str(mutate::VOCAB);
         for t in mutate::token_texts(w) {
